@@ -89,6 +89,7 @@ func cfgC17(t *rapid.T) gen.ProgCfg {
 	cfg.PWild = 20
 	cfg.PEmbedAsg = 25
 	cfg.PPar = 10
+	cfg.PBadLit = gen.Pick(t, "pbadlit", []int{0, 0, 2})
 	return cfg
 }
 
